@@ -124,6 +124,10 @@ func oExcluded(rules []oRule, path string) bool {
 var patAtoms = []string{"foo", "bar", "a", "b", ".git", ".terraform", "modules", "*.tf", "f?o", "*", "**", "a+b", "x(1)", "c$", "é", "fo o", "b*r", "?", "^a", "a|b", "{a}", "ba.", "*a*"}
 var pathSegsIgn = []string{"foo", "bar", "a", "b", ".git", ".terraform", "modules", "x.tf", "fao", "a+b", "aab", "x(1)", "c$", "é", "fo o", "a\nb", "^a", "a|b", "{a}", "bar.", "baz", "bax"}
 
+// lines that are (nearly) nothing but syntax: every normalisation step of readRules sees an
+// empty or one-character remainder on one of them (seed C19-b: a lone "/")
+var degenerateRuleLines = []string{"   ", "\t", "!", "! ", " # x", "#c", " ", "/", "!/", " / ", "//", "!//", "///", "/ ", "*", "!*", "**", "!**", "/*", "/**", "*/", "**/", "!!", "!#", "! /", "!/ ", "/!", "?", "/?"}
+
 func genPattern(r *Rng) string {
 	n := 1 + r.Intn(3)
 	if r.Chance(10) {
@@ -219,6 +223,12 @@ func init() {
 		}
 		for i := 0; i < cfg.N; i++ {
 			content := genRuleFile(r)
+			if i < 2*len(degenerateRuleLines) {
+				content = degenerateRuleLines[i/2]
+				if i%2 == 1 {
+					content = "foo\n" + content + "\n!bar/\n"
+				}
+			}
 			paths := make([]string, 12)
 			for j := range paths {
 				paths[j] = genIgnPath(r)
